@@ -561,6 +561,16 @@ fn keys_of(lw: usize, rw: usize, e: &Sx) -> (bool, bool) {
         _ => (false, false),
     }
 }
+/// bare column references resolve as SQL scoping says (`shift` = levels the expression is lifted by)
+fn bare_ok(scopes: &[usize], e: &Sx, shift: usize) -> bool {
+    match e {
+        Sx::Col { lvl, i, qual } => *qual || scopes.iter().take(lvl + shift).all(|w| *w <= *i),
+        Sx::Lit(_) | Sx::Exists(..) | Sx::Scalar(_) => true,
+        Sx::Arith(_, a, b) | Sx::Cmp(_, a, b) | Sx::And(a, b) | Sx::Or(a, b) => bare_ok(scopes, a, shift) && bare_ok(scopes, b, shift),
+        Sx::Not(a) | Sx::IsNull(_, a) => bare_ok(scopes, a, shift),
+        Sx::In(_, a, _) => bare_ok(scopes, a, shift),
+    }
+}
 fn scalar_class(d: &Db, q: &Qry) -> i64 {
     match q {
         Qry::Sel { items, src: Src::Base(_), w } if items.len() == 1 && matches!(items[0], Sx::Col { lvl: 0, .. }) => {
@@ -594,7 +604,12 @@ fn where_class(d: &Db, lw: usize, p: &Sx) -> i64 {
             }
             if let Some(w) = dc.w { let (h, pk) = keys_of(lw, rw, w); has_key |= h; pure &= pk; sub |= has_sub(w); }
             else if !dc.is_in { return 0; }
-            if has_key { if pure { 0 } else { 7 } } else if sub { 8 } else { 0 }
+            if has_key { if pure { 0 } else { 7 } } else if sub { 8 } else {
+                let scopes = [rw, lw];
+                let a_ok = dc.a.map(|a| bare_ok(&scopes, a, 1)).unwrap_or(true);
+                let w_ok = dc.w.map(|w| bare_ok(&scopes, w, 0)).unwrap_or(true);
+                if a_ok && w_ok { 0 } else { 7 }
+            }
         }
         None => {
             if has_inex(p) { return 9; }
